@@ -11,6 +11,11 @@
                                      theorem EAO.C19.coarse_partition says that these lists are the fine steps in [cut k, cut k+1)
   coarse_specs(scn)                  (asset name, args carrying freq/start/end, spec) of the top-level assets on a coarser frequency
   real_coarse(scn, spec)             the same lists read from the restricted grid the real code builds (tie of the model to the code)
+  gen_param_portfolio(rnd, tmax)     portfolios of all asset classes whose per-step parameters (costs, fuel, factors, capacities) come in every
+                                     accepted FORM: interval data covering only part of the asset's window (before / after / holes / nothing),
+                                     complete interval data, price keys, arrays, numbers (reform_params re-draws the forms of any scenario)
+  complete_defaults(scn)             the scenario with the documented default of such parameters WRITTEN OUT as explicit intervals over
+                                     the rest of time (expectation of the metamorphic default oracle of C07)
 """
 import pandas as pd
 
@@ -355,3 +360,233 @@ def coarse_model(g, args, drv):
         return None
     return {'minor': [[int(i) for i in m] for m in c['minor']], 'dt': [Fraction(x) for x in c['dt']],
             'dt_fine': {int(i): Fraction(x) for i, x in zip(fine['idx'], fine['dt'])}, 'cuts': c.get('cuts'), 'pts': fine['pts']}
+
+
+# ------------------------------------------------------------------------------------------ forms of the vector parameters
+# Parameters that `Asset.make_vector` turns into one value per step of the asset's window.  Accepted forms: number, key of the price
+# data, numpy array (one entry per step of the window), interval data {start, end, values}.  Where interval data leave steps of the
+# window unspecified the DOCUMENTED default applies (class doc strings: 'Defaults to 0.' / 'Defaults to 1.'; make_vector: 'default
+# value ... is used if any of the entries of the resulting vector are not specified').  Capacities have no default: every step must
+# be covered.      (parameter, lowest, highest value drawn, documented default)
+P_CONTRACT = [('extra_costs', 0.125, 2, 0.0)]
+P_PLANT = [('extra_costs', 0.125, 1, 0.0), ('start_costs', 0.5, 4, 0.0), ('running_costs', 0.125, 1, 0.0)]
+P_FUEL = [('start_fuel', 0.5, 2, 0.0), ('consumption_if_on', 0.125, 1, 0.0), ('fuel_efficiency', 0.25, 2, 1.0)]
+P_HEAT = [('conversion_factor_power_heat', 0.25, 2, 1.0), ('max_share_heat', 0.25, 2, 1.0)]
+P_MINLOAD = [('min_load_threshhold', 0.5, 3, 0.0), ('min_load_costs', 0.5, 3, 0.0)]
+DOC_DEFAULT = {p: d for tab in (P_CONTRACT, P_PLANT, P_FUEL, P_HEAT, P_MINLOAD) for p, _, _, d in tab}
+CONTRACT_TYPES = ('SimpleContract', 'Contract', 'MultiCommodityContract')
+PLANT_TYPES = ('Plant', 'CHPAsset', 'CHPAsset_with_min_load_costs')
+PARAM_KINDS = ['simple', 'contract', 'multi', 'plant', 'plant', 'plant', 'chp', 'chp', 'chp', 'chp', 'transport', 'ext_transport',
+               'scaled', 'structured', 'storage']
+
+
+def vector_params(spec):
+    """[(parameter, lo, hi, documented default)] of the default-carrying vector parameters of an asset spec"""
+    t = spec['type']
+    if t in CONTRACT_TYPES:
+        return list(P_CONTRACT)
+    if t not in PLANT_TYPES:
+        return []
+    out = list(P_PLANT)
+    heat = t != 'Plant'
+    if len(spec['nodes']) == (3 if heat else 2):
+        out += P_FUEL
+    if heat:
+        out += P_HEAT
+    if t == 'CHPAsset_with_min_load_costs':
+        out += P_MINLOAD
+    return out
+
+
+def _window_steps(g, args):
+    """grid steps of the window [start, end) given in `args`, as the real restricted grid has them"""
+    from .. import scen
+    tg = scen.make_grid(g)
+    tg.set_restricted_grid(scen.dec(args['start']) if 'start' in args else None, scen.dec(args['end']) if 'end' in args else None)
+    return [int(i) for i in tg.restricted.I]
+
+
+def pieces_dict(rnd, g, lo, hi, A, B, partial, with_end=False):
+    """interval data over the window of the steps A..B-1: consecutive pieces [cut, next cut) from before the horizon to behind it, cut
+    inside the window (now and then between two grid points); with `partial` some pieces are NOT given (before / after / a hole in the
+    middle / several), or all of the data lie outside the horizon; now and then without 'end' (each interval then ends where the next
+    begins; the last one 'generously' later or never - unless `with_end`).  None if a boundary is no legitimate local time."""
+    T = g['T_nominal']
+    step = pd.Timedelta(seconds=g['step_s'])
+    val = lambda: gen.q8(rnd, lo, hi)
+    inner = list(range(A + 1, B))
+    k = min(rnd.randint(2 if partial else 1, 4), len(inner) + 1)
+    if partial and (k < 2 or rnd.random() < 0.1):
+        # nothing of the window is covered
+        s, e = rnd.choice([(gen.P(g, T + 1), gen.P(g, T + 4)), (gen.P(g, -6), gen.P(g, -2)), (gen.P(g, -6), gen.P(g, A)), (gen.P(g, B), gen.P(g, T + 4))])
+        if not (gen.ok_local(s, g) and gen.ok_local(e, g)):
+            return None
+        return {'start': [gen.dtv(s)], 'end': [gen.dtv(e)], 'values': [val()]}
+    cuts = sorted(rnd.sample(inner, k - 1))
+    pts = [gen.P(g, -2)] + [gen.P(g, c) + (step / 2 if rnd.random() < 0.15 else 0 * step) for c in cuts] + [gen.P(g, T + 3)]
+    if not all(gen.ok_local(x, g) for x in pts):
+        return None
+    mask = [True] * k
+    if partial:
+        while all(mask):
+            mask = [rnd.random() < 0.55 for _ in range(k)]
+        if not any(mask):
+            mask[rnd.randrange(k)] = True
+    ss = [pts[i] for i in range(k) if mask[i]]
+    ee = [pts[i + 1] for i in range(k) if mask[i]]
+    d = {'start': [gen.dtv(x) for x in ss], 'values': [val() for _ in ss]}
+    first = mask.index(True)
+    if all(mask[first:]) and not with_end and rnd.random() < 0.3:
+        if len(ss) > 1 and not gen.ok_local(ss[-1] + 2 * (ss[-1] - ss[-2]), g):
+            d['end'] = [gen.dtv(x) for x in ee]
+        return d                                       # no 'end': implicit ends
+    d['end'] = [gen.dtv(x) for x in ee]
+    return d
+
+
+def draw_form(rnd, g, prices, T, lo, hi, steps, default, forms):
+    """(form, value) of a vector parameter in one of `forms` (scalar / key / array / full / partial); `steps` = steps of the asset's window;
+    default None: every step must be covered"""
+    form = rnd.choice(forms)
+    A, B = (steps[0], steps[-1] + 1) if steps else (0, g['T_nominal'])
+    if form == 'array' and not steps:
+        form = 'scalar'
+    if form in ('full', 'partial'):
+        d = pieces_dict(rnd, g, lo, hi, A, B, form == 'partial', with_end=default is None)
+        if d is not None:
+            return form, d
+        form = 'scalar'
+    if form == 'key':
+        k = 'k%d' % len(prices)
+        prices[k] = [gen.q8(rnd, lo, hi) for _ in range(T)]
+        return form, k
+    if form == 'array':
+        return form, {'$arr': [gen.q8(rnd, lo, hi) for _ in steps]}
+    return 'scalar', gen.q8(rnd, lo, hi)
+
+
+def reform_params(rnd, s, arrays=True):
+    """re-draws the FORM of the vector parameters of every asset of the scenario (also of wrapped assets and bases of scaled assets):
+    default-carrying parameters mostly as interval data covering part of the window, also complete interval data, price keys, arrays,
+    numbers; capacities (no default) as complete interval data, keys, arrays.  Returns the list of 'asset.parameter:form' drawn."""
+    from .. import scen
+    g, prices = s['grid'], s['prices']
+    T = scen.make_grid(g).T
+    drawn = []
+    wrapped = set()
+    for a in s['assets']:
+        for b in a.get('inner', []):
+            wrapped.add(id(b))
+        if a['type'] == 'ScaledAsset' and ('start' in a['args'] or 'end' in a['args'] or 'start' in a['base']['args'] or 'end' in a['base']['args']):
+            wrapped.add(id(a['base']))
+    for spec in scen.all_asset_specs(s):
+        args = spec.get('args', {})
+        t = spec['type']
+        if 'periodicity' in args or 'freq' in args:
+            continue
+        try:
+            steps = _window_steps(g, args)
+        except Exception:
+            continue
+        arr = [] if (id(spec) in wrapped or not arrays) else ['array']          # (an array has one entry per step of the window: only where the window is certain)
+        for p, lo, hi, dflt in vector_params(spec):
+            if rnd.random() < (0.55 if p in args else 0.4):
+                form, v = draw_form(rnd, g, prices, T, lo, hi, steps, dflt, ['partial'] * 5 + ['full', 'key', 'scalar'] + arr)
+                args[p] = v
+                drawn.append('%s.%s:%s' % (spec['name'], p, form))
+        # capacities: every step must be covered
+        if t in PLANT_TYPES:
+            for p, lo, hi in (('min_cap', 0.5, 2), ('max_cap', 2, 8)):
+                if p in args and isinstance(args[p], (int, float)) and rnd.random() < 0.3:
+                    form, v = draw_form(rnd, g, prices, T, lo, hi, steps, None, ['full', 'full', 'key'] + arr)
+                    args[p] = v
+                    drawn.append('%s.%s:%s' % (spec['name'], p, form))
+        elif t in CONTRACT_TYPES:
+            if isinstance(args.get('min_cap'), (int, float)) and isinstance(args.get('max_cap'), (int, float)) and rnd.random() < 0.3:
+                lo_, hi_ = args['min_cap'], args['max_cap']
+                for p, x, y in (('min_cap', lo_ - 1, lo_), ('max_cap', hi_, hi_ + 1)):
+                    form, v = draw_form(rnd, g, prices, T, x, y, steps, None, ['full', 'full', 'key'] + arr)
+                    args[p] = v
+                    drawn.append('%s.%s:%s' % (spec['name'], p, form))
+        # (transports: the constructor compares min_cap <= max_cap as numbers; the interval data their set-up reads cannot be given)
+    return drawn
+
+
+def gen_param_portfolio(rnd, tmax=12, arrays=True):
+    """a random portfolio (contracts, multi-commodity contracts, plants, CHPs incl. the min-load class, transports, scaled and
+    structured assets, storages; own windows; no coarse frequencies, no periodicity) in which the vector parameters of all assets
+    come in all accepted forms (reform_params).  `arrays` False: no arrays (an array has one entry per step of the asset's window; in a
+    split set-up the same asset is set up on every interval, no array fits them all)"""
+    s = gen.gen_portfolio(rnd, kinds=PARAM_KINDS, tmax=tmax, tmin=min(4, tmax), allow_freq=False, allow_periodic=False,
+                          nodes_max=3, max_assets=rnd.choice([1, 2, 3]), allow_blocks=False, market_prob=0.9)
+    s['params'] = reform_params(rnd, s, arrays)
+    return s
+
+
+# ------------------------------------------------------------------------------------------ the documented default, written out
+def _explicit(d):
+    """[(start, end, value)] of plain interval data as Timegrid.values_to_grid reads them (naive Timestamps; end None = for ever);
+    None for other encodings"""
+    st, vals = d.get('start'), d.get('values')
+    isdt = lambda x: isinstance(x, dict) and '$dt' in x
+    if not isinstance(st, list) or not isinstance(vals, list) or not st or not all(isdt(x) for x in st):
+        return None
+    S = [pd.Timestamp(x['$dt']) for x in st]
+    if 'end' in d:
+        if not isinstance(d['end'], list) or not all(isdt(x) for x in d['end']):
+            return None
+        E = [pd.Timestamp(x['$dt']) for x in d['end']]
+    elif len(S) > 1:
+        E = S[1:] + [S[-1] + 2 * (S[-1] - S[-2])]
+    else:
+        E = [None]
+    if not (len(S) == len(E) == len(vals)) or not all(isinstance(v, (int, float)) for v in vals):
+        return None
+    return list(zip(S, E, vals))
+
+
+def complete_dict(d, default, g):
+    """(interval data equal to `d` on its intervals and giving `default` EXPLICITLY everywhere else (from long before to long after
+    the horizon), True if a step of the horizon is outside the intervals of `d`); None if `d` is not plain, sorted and disjoint"""
+    iv = _explicit(d)
+    if iv is None:
+        return None
+    iv = sorted(iv, key=lambda x: x[0])
+    for i, (s, e, _) in enumerate(iv):
+        if (e is not None and not s < e) or (e is None and i < len(iv) - 1) or (i + 1 < len(iv) and e > iv[i + 1][0]):
+            return None
+    g0, g1 = pd.Timestamp(g['start']), pd.Timestamp(g['end'])
+    far = pd.Timedelta(days=400)
+    lo = (min(g0, iv[0][0]) - far).normalize() + 12 * H
+    hi = (max([g1] + [x for _, x, _ in iv if x is not None] + [x for x, _, _ in iv]) + far).normalize() + 12 * H
+    out, cur, gap_in = [], lo, False
+    pts = [pd.Timestamp(x) for x in g.get('_pts', [])[:-1]] or [g0]
+    for s, e, v in iv:
+        if cur < s:
+            out.append((cur, s, default))
+            gap_in = gap_in or any(cur <= p < s for p in pts)
+        out.append((s, hi if e is None else e, v))
+        cur = hi if e is None else e
+    if cur < hi:
+        out.append((cur, hi, default))
+        gap_in = gap_in or any(cur <= p < hi for p in pts)
+    return {'start': [gen.dtv(x) for x, _, _ in out], 'end': [gen.dtv(x) for _, x, _ in out], 'values': [float(v) for _, _, v in out]}, gap_in
+
+
+def complete_defaults(scn):
+    """(copy of the scenario in which every default-carrying vector parameter given as interval data is extended by its documented
+    default, written out explicitly over the rest of time; ['asset.parameter', ...] of those that leave a step of the horizon open)"""
+    import copy
+    from .. import scen
+    s2 = copy.deepcopy(scn)
+    changed = []
+    for spec in scen.all_asset_specs(s2):
+        args = spec.get('args', {})
+        for p, _, _, dflt in vector_params(spec):
+            v = args.get(p)
+            if isinstance(v, dict) and 'start' in v and 'values' in v:
+                r = complete_dict(v, dflt, s2['grid'])
+                if r is not None and r[1]:
+                    args[p] = r[0]
+                    changed.append('%s.%s' % (spec['name'], p))
+    return s2, changed
